@@ -20,6 +20,15 @@ Theorem C20_first_existing_file w :
 Proof. exact (get_path_first_existing w). Qed.
 Print Assumptions C20_first_existing_file.
 
+(* with no '$' in the home directory the candidates / default locations are the platform's, verbatim *)
+Theorem C20_candidates_plain w :
+  contains ch_dollar (user_home w) = false ->
+  expanded_candidates w = client_conf_paths (the_platform w) /\
+  expanded_defaults w Pib = default_pib_paths (the_platform w) /\
+  expanded_defaults w Tpm = default_tpm_paths (the_platform w).
+Proof. exact (candidates_plain w). Qed.
+Print Assumptions C20_candidates_plain.
+
 (* ---- precedence: environment > first existing file > platform default ------------------------------ *)
 Theorem C20_precedence w lines :
   wf_conf lines = true -> nonempty (get_path w) = true -> read_file w (get_path w) = Ok (render lines) ->
@@ -119,6 +128,13 @@ Theorem C20_unknown_scheme_error nf scheme rest :
   exists e, default_face nf (scheme ++ ch_colon :: rest) = Err e.
 Proof. exact (default_face_unknown_scheme nf scheme rest). Qed.
 Print Assumptions C20_unknown_scheme_error.
+
+(* the platform default transport is itself a URI that default_face accepts *)
+Theorem C20_platform_transport_face nf w :
+  default_face nf (default_transport (the_platform w)) = Ok (FUnix (slit "/run/nfd/nfd.sock")) \/
+  default_face nf (default_transport (the_platform w)) = Ok (FUnix (slit "/run/nfd.sock")).
+Proof. exact (platform_transport_face nf w). Qed.
+Print Assumptions C20_platform_transport_face.
 
 (* ---- keychain dispatch ------------------------------------------------------------------------------------------ *)
 Theorem C20_keychain_known pib_loc tpm_loc :
